@@ -401,6 +401,10 @@ def run_check(prop, tier, seed):
                 import engine_lin
                 rc2 = engine_lin.run(prop, tier, seed, plan, merge=True)
                 rc = 2 if rc2 == 2 else max(rc, rc2)
+            if rc != 2 and plan.get("also_longadd"):
+                import engine_lin
+                rc2 = engine_lin.run(prop, tier, seed, plan, merge=True, only_longadd=True)
+                rc = 2 if rc2 == 2 else max(rc, rc2)
             if rc != 2 and plan.get("also_kqstress"):
                 import engine_kqstress
                 rc2 = engine_kqstress.run(prop, tier, seed)
